@@ -41,6 +41,12 @@ CLAIMED.update({
             "(removed, emptied, truncated, any single byte at first/middle/last position replaced by any other byte - decided through the injective digest model): never a "
             "panic; either Err or exactly the state of the intact causally complete subset. Found the DeltaId::from overflow panic (fixed).", "DESIGN.md §5 C10"),
 })
+CLAIMED.update({
+    "C04": ("Melda-level, executed from MIR: after 0..2 earlier documents (committed or not) a document of one of three families (element orders and objects moving "
+            "between two flattened arrays; flattened object / string fields with symbolic printable content appearing, disappearing, changing kind; a flattened key "
+            "changing kind among absent / array / empty array / number / string / object) is submitted: read() equals it with only identifiers added; resubmission stages "
+            "nothing; commit result matches has_staging; an idle commit writes nothing; reopened replica equal. Found the deleted-array-descriptor defect (fixed).", "DESIGN.md §5 C04"),
+})
 NA_REASON_PENDING = "check not built yet in this revision of /verif (Melda-level MIR reach in progress); not claimed"
 
 checks = []
